@@ -34,6 +34,9 @@ DocBounds ==
     hwb      |-> << Free, Unit, Unit >>,
     linluma  |-> << Unit >>,
     srgbluma |-> << Unit >>,
+    \* cone responses: "the typical range is between 0.0 and 1.0, but it doesn't have an actual upper bound"
+    lmsvk    |-> << <<Q(0, 1), NoB>>, <<Q(0, 1), NoB>>, <<Q(0, 1), NoB>> >>,
+    lmsbfd   |-> << <<Q(0, 1), NoB>>, <<Q(0, 1), NoB>>, <<Q(0, 1), NoB>> >>,
     \* the universe of the other RGB standards and white points (harness binaries convstd*):
     \* D50 (ASTM E308): X = 0.96422, Z = 0.82521; DCI white x = 0.314, y = 0.351: X = 0.89459, Z = 0.95442
     adobe |-> << Unit, Unit, Unit >>, linadobe |-> << Unit, Unit, Unit >>,
